@@ -54,14 +54,13 @@ def addFrame (st : PadStyle) (dir base ext frame : Bytes) : List SeqInfo → Lis
        else b1) :: bs
     else b :: addFrame st dir base ext frame bs
 
-/-- the re-parse shared by `appendSeq` and the single-file path: build the string, parse it,
-    then force the previously determined components — as repaired by the D9a/D14 `fix:`
-    commit the directory is forced too. -/
-def rebuild (st : PadStyle) (dir base frange pad ext : Bytes) : Except Err Seq := do
-  let fs ← Seq.parse st (dir ++ base ++ frange ++ pad ++ ext)
-  let fs := { fs with base := base, ext := ext, dir := dir }
-  if frange.isEmpty then pure ((fs.setFrameSet none).setPadding [])
-  else pure (fs.setFrameRange frange).1
+/-- `appendSeq` — as repaired by the D9/D14 `fix:` commit: the sequence is built from the
+    components already determined instead of formatting and re-parsing them; a frame without
+    pad characters (single frame after a digit) gets the pad of its own width. -/
+def rebuild (st : PadStyle) (dir base frange pad ext : Bytes) : Seq :=
+  let pad' := if pad.isEmpty ∧ !frange.isEmpty then padChars st frange.length else pad
+  let s := Seq.setPadding ⟨base, dir, ext, [], 0, none, st⟩ pad'
+  if frange.isEmpty then s else (s.setFrameRange frange).1
 
 /-- stable insertion sort by frame width (what pdqsort does for n ≤ 12) -/
 def insertByWidth (x : FrameInfo) : List FrameInfo → List FrameInfo
@@ -79,9 +78,9 @@ def regroup : List FrameInfo → Nat → List Int → List (Nat × List Int) →
     else regroup rest w (cur ++ [fi.num]) acc
 
 /-- sequences of one bucket -/
-def bucketSeqs (st : PadStyle) (b : SeqInfo) : Except Err (List Seq) :=
+def bucketSeqs (st : PadStyle) (b : SeqInfo) : List Seq :=
   match b.frames with
-  | [] => .ok []
+  | [] => []
   | [f] =>
     let lastIsDigit : Bool :=
       if b.base.isEmpty then false else
@@ -91,13 +90,12 @@ def bucketSeqs (st : PadStyle) (b : SeqInfo) : Except Err (List Seq) :=
       | [] => false
     let pad := if lastIsDigit then [] else b.padding
     let frange := if pad.isEmpty then f.frame else itoa f.num
-    do let s ← rebuild st b.dir b.base frange pad b.ext
-       pure [s]
+    [rebuild st b.dir b.base frange pad b.ext]
   | _ =>
     let sorted := sortByWidth b.frames
     let w0 := (sorted.head?.map (·.frame.length)).getD 0
     let groups := regroup sorted w0 [] []
-    groups.mapM fun (w, nums) =>
+    groups.map fun (w, nums) =>
       rebuild st b.dir b.base (framesToFrameRange nums true 0) (padChars st w) b.ext
 
 /-- the scan over the items: buckets and single files -/
@@ -124,20 +122,17 @@ def scanItems (o : ListOpts) (tmpl : Option Seq) :
         let ok := m.isSome ∧ !frame.isEmpty ∧ !(base.isEmpty ∧ ext.isEmpty)
         if ok then scanItems o tmpl rest (addFrame o.style it.dir base ext frame bs) files
         else if o.single then
-          match Seq.parse o.style (it.dir ++ it.name) with
-          | .error e => .error e
-          | .ok fs =>
-            let fs := { fs with base := base, ext := ext }
-            let fs := if frame.isEmpty then (fs.setFrameSet none).setPadding []
-                      else (fs.setFrameRange frame).1
-            scanItems o tmpl rest bs (files ++ [fs])
+          -- (as repaired: built from the components; a name the pattern cannot read at all
+          --  is kept whole as the basename)
+          let (base, ext) := if m.isSome then (base, ext) else (it.name, [])
+          let fs := rebuild o.style it.dir base frame [] ext
+          scanItems o tmpl rest bs (files ++ [fs])
         else scanItems o tmpl rest bs files
 
 /-- `findSequencesInList` -/
 def findInItems (items : List FileItem) (o : ListOpts) (tmpl : Option Seq) : Except Err (List Seq) := do
   let (bs, files) ← scanItems o tmpl items [] []
-  let seqs ← bs.mapM (bucketSeqs o.style)
-  pure (seqs.flatten ++ (if o.single then files else []))
+  pure ((bs.map (bucketSeqs o.style)).flatten ++ (if o.single then files else []))
 
 /-- `FindSequencesInList` — as repaired by the D8 `fix:` commit (a bare file name keeps an
     empty directory) -/
